@@ -56,6 +56,11 @@ def check(run):
             jobs.append({"k": "sortset", "eco": e, "items": items, "part": [part[e].get(t, 0) for t in items], "perms": perms})
             for p in rnd.sample(perms, max(1, len(perms) // 16)):
                 cliruns.append({"tag": "sort", "argv": [check_c15.codes(x) for x in [e, "sort"] + [items[i - 1] for i in p]]})
+            # the same list with blank-padded spellings of some members (valid inputs; the CLI must print exactly what
+            # the library's String() gives for the arguments as passed)
+            if n >= 2:
+                padded = [rnd.choice([" %s", "%s ", "\t%s", "%s\n", " %s ", "%s\r\n"]) % t if rnd.random() < 0.5 else t for t in items]
+                cliruns.append({"tag": "sort", "argv": [check_c15.codes(x) for x in [e, "sort"] + padded]})
         # multisets the pre-sample suggests are ordered inconsistently (generator heuristic; TLC judges the real sort)
         for trip in getattr(run, "suspects", {}).get(e, [])[:8]:
             items = trip + [rnd.choice(pool) for _ in range(2)]
